@@ -299,6 +299,8 @@ def run(ctx):
     from rules.c08 import once_enter_value_guarded
     once_enter_value_guarded(db, rep, "D5-LAZY-INIT-VALUE")
 
+    d6_acc_slot_width(db, rep)
+
     if ctx.tier == "thorough":
         d4(ctx, rep)
 
@@ -388,3 +390,50 @@ def d4(ctx, rep):
     rep.extra["generated_sources_checked"] = n
     if n < 100:
         raise AnalysisBroken("only %d generated sources were type-checked" % n)
+
+
+STORE_ROW_WIDTH = {"pextrb": 1, "pextrw": 2, "movd": 4, "pextrd": 4, "movq": 8, "pextrq": 8, "movdqa": 16, "movdqu": 16, "movntdq": 16, "movups": 16, "movaps": 16}
+
+
+def d6_acc_slot_width(db, rep):
+    """D6: every generated store into ex->accumulators[k] writes the whole slot.  The slot is an int that the wrapper reads back
+    with orc_executor_get_accumulator() from an executor living uncleared on its stack, so a narrower store returns the
+    caller's stack garbage in the upper bytes.  Width of a store = the size argument of the mov emitters, or the access width
+    of the x86 opcode-table row passed to the generic store emitter."""
+    fld = db.field("OrcExecutor", "accumulators")
+    slot = fld["size"] // fld["alen"]
+    rows = init_rows(db.tu("orcx86insn").global_("orc_x86_opcodes"))
+    n = 0
+    for f in db.all_functions():
+        if not (f.relfile.startswith("orc/orcprogram-") or f.relfile.startswith("orc/orcrules-") or f.relfile in ("orc/orcx86.c", "orc/orcsse.c", "orc/orcavx.c", "orc/orcmmx.c")):
+            continue
+        if any(t in f.relfile for t in ("neon", "arm", "mips", "altivec", "c64x", "orcprogram-c.c")):
+            continue
+        for c in f.calls():
+            if not c.name or "memoffset" not in c.name:
+                continue
+            a = c.args()
+            if not any(z.k == "OffsetOfExpr" and (z.get("opath") or "").startswith("accumulators") for x in a for z in x.walk()):
+                continue
+            width = None
+            if c.name in ("orc_x86_emit_mov_reg_memoffset", "orc_x86_emit_mov_sse_memoffset", "orc_x86_emit_mov_avx_memoffset", "orc_x86_emit_mov_mmx_memoffset"):
+                width = strip_casts(a[1]).v
+                how = "size argument"
+            elif "store_memoffset" in c.name:
+                rv = strip_casts(a[1]).v
+                rname = rows[rv]["name"] if rv is not None and 0 <= rv < len(rows) else None
+                width = STORE_ROW_WIDTH.get(rname)
+                how = "row `%s`" % rname
+            elif "load_memoffset" in c.name or c.name == "orc_x86_emit_mov_memoffset_reg":
+                continue
+            if width is None:
+                raise AnalysisBroken("%s: width of the accumulator store `%s` not determined" % (f.name, unparse(c)[:80]))
+            n += 1
+            rep.saw(f)
+            rep.check(width == slot, "D6-ACC-SLOT-WIDTH", where(f), "store:accumulators[]@%s:%s" % (f.name, c.line),
+                      "%d-byte store (%s) fills the %d-byte slot" % (width, how, slot),
+                      "%s stores only %d byte(s) (%s) into the %d-byte slot ex->accumulators[k]: the rest keeps whatever the executor held - a generated "
+                      "wrapper reads the whole int from its uncleared stack executor, so the accumulator result comes back with garbage upper bytes" %
+                      (f.name, width, how, slot), line=c.line)
+    if n < 5:
+        raise AnalysisBroken("only %d generated stores into ex->accumulators[] found" % n)
